@@ -238,6 +238,40 @@ def sigOfCell (g : C15.Grid) (p : List V3) (ci : Nat) : Sig :=
   if g.kind.corners == 4 then sigQuadWith g.kind.sideIdx CBV.Gen.quadAspectPairs (cellPts p cell) nb
   else sigHexWith g.kind.sideIdx CBV.Gen.hexAspectPairs (cellPts p cell) nb
 
+/-! ### histories: `GridBase.update` moves one point; qualities are read in between -/
+
+/-- one step of a history on a grid: read all cell qualities, or `grid.update(index, position)`
+    (no links: the point is overwritten and the junction's quality is returned) -/
+inductive HOp where
+  | read
+  | update (i : Nat) (v : V3)
+  deriving Repr
+
+/-- the points after a step -/
+def stepPts (p : List V3) : HOp → List V3
+  | .read => p
+  | .update i v => p.set i v
+
+def finalPts (p : List V3) (ops : List HOp) : List V3 := ops.foldl stepPts p
+
+/-- qualities of all cells of the grid at the given points (what a freshly built grid reports) -/
+def cellQualities (g : C15.Grid) (p : List V3) : List (Option Float) :=
+  (List.range g.cells.length).map (fun ci => quality (g.kind.corners == 4) (sigOfCell g p ci))
+
+/-- what the reads of a history return: every `read` sees the points as they are at that moment — the
+    code keeps no memory of earlier reads (`CellBase._quality` is never consulted) -/
+def runHist (g : C15.Grid) : List V3 → List HOp → List (List (Option Float))
+  | _, [] => []
+  | p, .read :: ops => cellQualities g p :: runHist g p ops
+  | p, .update i v :: ops => runHist g (p.set i v) ops
+
+/-- `Junction.quality`: mean of the qualities of the cells at a junction (return value of `update`) -/
+def junctionQuality (g : C15.Grid) (p : List V3) (j : Nat) : Option Float :=
+  let qs := ((List.range g.cells.length).filter (fun ci => (g.cells.getD ci []).contains j)).map
+    (fun ci => quality (g.kind.corners == 4) (sigOfCell g p ci))
+  if qs.isEmpty || qs.any (·.isNone) then none
+  else some (fsum (qs.map (·.getD 0.0)) / Float.ofNat qs.length)
+
 /-! ### the 24 rotations of the hexahedron (used by the theorems and by the harness' self check) -/
 
 /-- blockMesh numbering: local coordinates (x, y, z) of corner `c` -/
@@ -291,8 +325,38 @@ def handleGrid (args : List String) : Option String :=
       some (" ".intercalate out)
   | _ => none
 
+def parseHOp? (s : String) : Option HOp :=
+  if s == "R" then some .read
+  else if s.startsWith "U" then
+    match ((s.drop 1).toString).splitOn ":" with
+    | [i, v] => do some (.update (← parseNat? i) (← parseV3? v))
+    | _ => none
+  else none
+
+def showOptF (q : Option Float) : String := match q with | some v => showF v | none => "degenerate"
+
+/-- `c14.hist kind cells points op|op|…` (`R` = read all cells, `Ui:x,y,z` = `grid.update(i, (x,y,z))`) →
+    per step: the cell values `a;b;…` of a read, or `J<value>` returned by the update -/
+def handleHist (args : List String) : Option String :=
+  match args with
+  | [k, cells, pts, ops] => do
+      let kind ← C15.kindOf? k
+      let cells ← C15.parseCells? cells
+      let p ← C15.parsePts? pts
+      let ops ← (ops.splitOn "|").mapM parseHOp?
+      let g : C15.Grid := ⟨kind, cells, p.length⟩
+      if !C15.wellFormed g then some "reject" else
+      let r := ops.foldl (fun (acc : List V3 × List String) op =>
+        let p' := stepPts acc.1 op
+        match op with
+        | .read => (p', acc.2 ++ [";".intercalate ((cellQualities g p').map showOptF)])
+        | .update i _ => (p', acc.2 ++ ["J" ++ showOptF (junctionQuality g p' i)])) (p, [])
+      some ("|".intercalate r.2)
+  | _ => none
+
 def handle (op : String) (args : List String) : Option String :=
   match op with
+  | "c14.hist" => handleHist args
   | "c14.grid" => handleGrid args
   | "c14.rot24" => if args.isEmpty then some (";".intercalate (rot24.map showNatList)) else none
   | _ => none
